@@ -53,6 +53,11 @@ def cases(tier, seed):
             for vop in ("complete", "submit", "cancel_queued"):
                 out.append({"name": "throttle.sweep/client/count=%s/block=%d/%s" % (c, block, vop), "kind": "sweep",
                             "victim": "client", "count": c, "block": block, "trigger": vop, "cap": cap})
+    # blocking mode with a count callable that is raised while a submit() is blocked
+    for start, raised in ((1, 3), (1, 2), (2, 5)):
+        for mover in ("complete", "cancel_queued"):
+            out.append({"name": "throttle.block-dynamic/%d-to-%d/%s" % (start, raised, mover), "kind": "blockdyn", "start": start,
+                        "raised": raised, "mover": mover})
     # suspension points at instruction boundaries (the in-flight counter's read-modify-write, queue pops)
     for c in (2,):
         for victim, trig in (("client", "complete"), ("worker", "complete"), ("client", "submit"), ("worker", "submit")):
@@ -486,6 +491,54 @@ def run_sweep(case, res):
             return
 
 
+def run_blockdyn(case, res):
+    """count callable = start; `start` in flight, `start` queued (the queue is full), one more submit() blocks.  The
+    callable's answer is raised; then the queue moves (a completion / a cancel of a queued future): the blocked
+    submit() returns - it blocks only while the queue holds `count` entries."""
+    begin("vt")
+    ctx = Ctx()
+    try:
+        w = TWorld(ctx, "step", True)
+        w.cur = case["start"]
+        instr.advance(D)
+        for i in range(2 * case["start"]):
+            w.do_submit(w.new_sub())
+            instr.advance(0.01)
+        instr.advance(D)
+        sb = w.new_sub()
+        a = ctx.actor("B", w.do_submit, sb).go()
+        st = harness.wait_done_or_blocked(a)
+        if a.finished:
+            res.inconclusive.append("%s: the extra submit() did not block (queued %d)" % (case["name"], len(w.queued())))
+            return
+        w.cur = case["raised"]
+        if case["mover"] == "complete":
+            p = w.inflight_items()
+            w.me.complete(p[0], 1)
+        else:
+            q = w.queued()
+            call("cancel", q[-1]["fut"].cancel, _tag=q[-1]["id"])
+        instr.advance(D)
+        res.execs += 1
+        check_common(res)
+        if not a.finished:
+            res.violation("blocking-submit/stalled", "%s: the count callable now answers %d, the queue holds %d entries, submit() is still "
+                          "blocked %.1f virtual s after the queue moved" % (case["name"], case["raised"], len(w.queued()), D))
+            instr.advance(31.0)
+        drive([a], use_time=True)
+        for _ in range(12):
+            p = w.inflight_items()
+            if not p and not w.queued():
+                break
+            for k in p:
+                w.me.complete(k, 1)
+            instr.advance(D)
+        w.check_arrivals(res, case["name"])
+        res.key("blockdyn", case["start"], case["raised"], case["mover"])
+    finally:
+        end(ctx)
+
+
 def run_fifo(case, res):
     """count in flight, nq queued; cancel the ci-th queued one; complete everything one by one."""
     begin("vt")
@@ -519,6 +572,8 @@ def run_fifo(case, res):
 
 
 def run_case(case, res):
+    if case["kind"] == "blockdyn":
+        return run_blockdyn(case, res)
     if case["kind"] == "fifo":
         return run_fifo(case, res)
     if case["kind"] == "model":
